@@ -329,7 +329,10 @@ def translate_one(name, src, numtype, rtype, ret='plain'):
             ptypes.append(f'({p} : BBox)')
         else:
             ptypes.append(f'({p} : {numtype})')
-    return params, f'def {name} ' + ' '.join(ptypes) + f' : {rtype} :=\n  {expr}\n'
+    plist = ', '.join('"' + p + '"' for p in params)
+    return params, (f'def {name} ' + ' '.join(ptypes) + f' : {rtype} :=\n  {expr}\n\n'
+                    f'/-- the attributes of the object(s) that `{name}` reads (its parameters, in order). -/\n'
+                    f'def {name}_reads : List String := [{plist}]\n')
 
 
 class InlineSeparation(ast.NodeTransformer):
